@@ -86,9 +86,8 @@ def observe(args):
             combs = G.combiners(d, sn)
             for b, c in combs.items():
                 c.hard_softmax = st['hard'][b]
-            if st['temp'] is not None:
-                for c in combs.values():
-                    c.softmax_temperature = st['temp']
+            for c in combs.values():
+                c.softmax_temperature = st['temp'] if st['temp'] is not None else 1
             if st.get('via_update') is not None:
                 sn.update_softmax_options(hard=st['via_update'])
             torch.manual_seed(st['seed'])
@@ -170,6 +169,13 @@ def gen_settings(rng, d, quick):
     st(rand_alpha(), False, [True] * len(nbr), rng.choice([None, 0.05, 20.0]))   # hard, eval
     st(rand_alpha(), True, [True] * len(nbr), None)                              # hard / Gumbel-hard, train
     st(rand_alpha(), rng.random() < 0.5, cfg_hard, None, via=rng.choice([True, False]))   # through update_softmax_options
+    # near-tied coefficients (unique raw maximum 1/2/4 float32 ulps or 1e-6 above an earlier / later runner-up): the
+    # exported network must still be the raw arg-max selection whatever float32 softmax does to the pair
+    for j, gap in enumerate(G.NEAR_GAPS):
+        for temp in ((0.05, 100.0) if quick and j % 2 else (1.0, 20.0)) if quick else (0.05, 1.0, 20.0, 100.0):
+            runner = 'later' if rng.random() < 0.25 else 'earlier'
+            st([G.gen_alpha_neartie(rng, k, gap, runner)[0] for k in nbr], False, [True] * len(nbr), temp, via=rng.choice([None, True]))
+            sts[-1]['neartie'] = {'gap': gap, 'runner': runner}
     if all(k <= 4 for k in nbr):   # every selection, hard
         for win in itertools.product(*[range(k) for k in nbr]):
             st([G.gen_alpha(rng, k, w) for k, w in zip(nbr, win)], False, [True] * len(nbr), None)
@@ -211,6 +217,14 @@ def check_obs(d, table, st, o, fails, tag):
                 fails.append(('cost-not-weighted-mix', dict(info, what='%r: get_cost = %r, sum of coefficient-weighted branch costs (+ fixed layers with full_cost) = %r' % (w, c, float(exp)))))
             elif not (float(lo) * (1 - TOL) - 1e-9 <= c <= float(hi) * (1 + TOL) + 1e-9):
                 fails.append(('cost-outside-selection-bounds', dict(info, what='%r: get_cost = %r not in [cheapest selection %r, dearest selection %r]' % (w, c, float(lo), float(hi)))))
+            # the exported network is the raw arg-max selection: its metric from scratch = the cost of that selection
+            # (call-site dependent costs excluded: open finding)
+            if o.get('export_exc') is None and o['scratch'] and not (is_diffres(d) and not shared):
+                sc = Fraction(o['scratch']['%s/%d' % (s, full)])
+                sel = mix_cost(d, table, s, shared, full, lambda b, bc: onehot(win[b], len(bc)))
+                if sc != sel:
+                    fails.append(('exported-cost-not-argmax-selection' + (':near-tied-coefficients' if st.get('neartie') else ''),
+                                  dict(info, what='%r: metric of the exported network from scratch = %r, cost of the selection with the largest raw coefficients (winners %r, coefficients %r, temperature %r) = %r' % (w, float(sc), win, st['alphas'], st.get('temp'), float(sel)))))
             if is_hard_argmax and o.get('export_exc') is None and o['scratch']:
                 sc = Fraction(o['scratch']['%s/%d' % (s, full)])
                 if not close(c, sc, 2.0 ** -22):
@@ -235,6 +249,7 @@ def run(ctx):
     ctx.rule = ('networks of vlib/sn_gen.py (see C03) + a stream with a block invoked twice at different resolutions (fixed MaxPool2d(2) between the two calls); '
                 'metrics params (shared) and ops (per invocation) x full_cost off/on; settings per network: constructed options at uniform coefficients, soft eval, soft/Gumbel train, '
                 'hard eval, hard/Gumbel-hard train, update_softmax_options(hard=...), temperatures {.05,.1,.5,1,2,5,20}, coefficients = distinct multiples of 1/16 (10% ties), '
+                'a NEAR-TIE stream per network (unique raw maximum 1/2/4 float32 ulps or 1e-6 above a runner-up, T in {.05,1,20,100}, hard: the exported network must cost what the raw arg-max selection costs), '
                 'and EVERY winner combination under hard selection when all blocks have <= 4 branches; one case = (network, setting); non-trivial = some block has two branches of different cost; '
                 'distinct by (network, sampled coefficients)')
     ctx.assumptions += ['per-layer costs are inputs of the model: CostSpec lookups spec[(type(layer), vars(layer))] on the user model at every call site (forward hooks)',
@@ -266,6 +281,9 @@ def run(ctx):
             mode = ('train' if st['train'] else 'eval') + ('/hard' if all(st['hard']) else '/soft' if not any(st['hard']) else '/mixed') + ('/gumbel' if any(b['gumbel'] for b in d['blocks']) else '')
             ctx.case((strip(d), o.get('theta')), nontrivial=nontriv, kind=tag + ':' + mode,
                      sample={'n_branches': [len(b['branches']) for b in d['blocks']], 'chain': d['chain'], 'mode': mode, 'theta': o.get('theta'), 'get_cost': o['cost'], 'exported_from_scratch': o['scratch']})
+            if st.get('neartie'):
+                ctx.extra['near_tie_cases'] = ctx.extra.get('near_tie_cases', 0) + 1
+                ctx.dist['near-tie gap %s T=%s' % (st['neartie']['gap'], st['temp'])] += 1
             if o.get('export_exc'):
                 ctx.dist['export raised (C03), exported-cost sentence skipped'] += 1
             check_obs(d, table, st, o, fails, tag)
